@@ -1,3 +1,143 @@
-//! C11 — not built yet.
-use crate::run::Run;
-pub fn run(_run: &Run) { eprintln!("C11: check not built yet"); std::process::exit(2); }
+//! C11 — an object's value does not depend on how it is stored.
+use crate::casecheck::check_case;
+use crate::doc::{root_kind, CFGS};
+use crate::mkpdf::{self, name, rf, Obj, W};
+use crate::panicmon::guard;
+use crate::par::par_for;
+use crate::printer::Printer;
+use crate::refimpl::codec;
+use crate::rng::{fnv, Rng};
+use crate::run::{show, Run};
+use crate::tape::Src;
+use crate::val::{brief_v, gen_value, matches, GenOpts, V};
+use crate::with_file;
+use pdf::object::{PlainRef, Ref, Resolve, Stream};
+use pdf::primitive::Primitive;
+use serde_json::{json, Value};
+use std::cell::RefCell;
+
+fn plain(v: &V) -> Vec<u8> { let mut s = Src::replay(&[]); let mut p = Printer::new(&mut s); p.first_token(); p.value(v); p.out }
+
+#[derive(Debug)]
+struct Case {
+    v: V, position: u8, n_members: usize, trailing_ws: bool, pad_first: usize, filters: Vec<u8>, filter_tape: Vec<u32>,
+    // stream part
+    stream_data: Vec<u8>, length_mode: u8,
+}
+const FNAMES: [&str; 5] = ["ASCIIHexDecode", "ASCII85Decode", "RunLengthDecode", "LZWDecode", "FlateDecode"];
+
+fn gen_case(s: &mut Src) -> Case {
+    let v = gen_value(s, &GenOpts { depth: 2, refs: true, max_str: 10, wide_names: false }, 0);
+    let kind = match &v { V::Int(_) => "v_int", V::Real(_) => "v_real", V::Ref(..) => "v_ref", V::Name(_) => "v_name", V::Bool(_) | V::Null => "v_keyword", V::Str(_) => "v_string", V::Arr(_) => "v_array", V::Dict(_) => "v_dict" };
+    if kind != "v_int" { s.label(kind); }
+    let n_members = 1 + s.draw(4) as usize;
+    let position = if n_members == 1 { 2 } else { s.alt(1, &["pos_first", "pos_middle", "pos_last"]) as u8 };
+    let trailing_ws = s.alt(2, &["trailing_ws", "no_trailing_ws"]) == 0;
+    let pad_first = if s.alt(3, &["first_tight", "first_padded"]) == 1 { 1 + s.draw(3) as usize } else { 0 };
+    let nf = s.alt(2, &["objstm_unfiltered", "objstm_one_filter", "objstm_two_filters"]);
+    let mut filters = Vec::new();
+    for _ in 0..nf { let k = s.draw(5) as u8; s.label(["f_AHx", "f_A85", "f_RL", "f_LZW", "f_Flate"][k as usize]); filters.push(k); }
+    let filter_tape: Vec<u32> = (0..24).map(|_| s.draw(64)).collect();
+    let stream_data = s.bytes(50);
+    let length_mode = s.alt(2, &["length_direct", "length_ref_direct", "length_ref_compressed"]) as u8;
+    Case { v, position, n_members, trailing_ws, pad_first, filters, filter_tape, stream_data, length_mode }
+}
+
+fn encode_chain(filters: &[u8], tape: &[u32], data: &[u8]) -> (Vec<(Vec<u8>, Obj)>, Vec<u8>) {
+    if filters.is_empty() { return (vec![], data.to_vec()); }
+    let mut s = Src::replay(tape);
+    let mut cur = data.to_vec();
+    for &k in filters.iter().rev() {
+        cur = match k { 0 => codec::hex_encode(&cur, &mut s), 1 => codec::a85_encode(&cur, &mut s), 2 => codec::rl_encode(&cur, &mut s), 3 => codec::lzw_encode(&cur, 1, &mut s), _ => codec::flate_encode(&cur, &mut s) };
+    }
+    let f = if filters.len() == 1 { name(FNAMES[filters[0] as usize]) } else { Obj::Arr(filters.iter().map(|&k| name(FNAMES[k as usize])).collect()) };
+    (vec![(b"Filter".to_vec(), f)], cur)
+}
+
+/// twin documents: (direct, compressed). Object 5 is the value; object 10 the stream; 11 its length when indirect.
+fn build(c: &Case) -> (Vec<u8>, Vec<u8>) {
+    let sk = mkpdf::skeleton(1);
+    let val = Obj::Raw(plain(&c.v));
+    let stream_obj = |len: Obj| Obj::Stream(vec![(b"Length".to_vec(), len), (b"Kind".to_vec(), name("Test"))], c.stream_data.clone());
+    // twin A: everything direct, classic table
+    let a = {
+        let mut objs = sk.clone();
+        objs.push((5, val.clone()));
+        objs.push((10, stream_obj(Obj::Int(c.stream_data.len() as i64))));
+        mkpdf::simple_doc(&objs, 1, vec![])
+    };
+    // twin B: value inside an object stream; stream length per length_mode
+    let b = {
+        let mut w = W::new(b"", "1.5");
+        w.free(0, 0, 65535);
+        for (n, o) in &sk { w.obj(*n, 0, o); }
+        let mut members: Vec<(u32, Obj)> = Vec::new();
+        let idx = match c.position { 0 => 0, 1 => c.n_members / 2, _ => c.n_members - 1 };
+        for i in 0..c.n_members {
+            if i == idx { members.push((5, val.clone())); }
+            else { members.push((20 + i as u32, if i % 2 == 0 { Obj::Int(i as i64 * 7) } else { mkpdf::dict(vec![("F", Obj::Int(i as i64))]) })); }
+        }
+        if c.length_mode == 2 { members.insert(0, (11, Obj::Int(c.stream_data.len() as i64))); }
+        let tape = RefCell::new(c.filter_tape.clone());
+        let enc = |d: &[u8]| encode_chain(&c.filters, &tape.borrow(), d);
+        w.objstm(6, &members, if c.trailing_ws { b"\n" } else { b"" }, c.pad_first, &enc);
+        match c.length_mode {
+            0 => w.obj(10, 0, &stream_obj(Obj::Int(c.stream_data.len() as i64))),
+            1 => { w.obj(11, 0, &Obj::Int(c.stream_data.len() as i64)); w.obj(10, 0, &stream_obj(rf(11))); }
+            _ => w.obj(10, 0, &stream_obj(rf(11))),
+        }
+        w.xref_stream(30, vec![(b"Root".to_vec(), rf(1))], 31, &[], &mkpdf::flate_filter);
+        w.buf
+    };
+    (a, b)
+}
+
+fn el(e: &pdf::PdfError) -> String { format!("{}: {}", root_kind(e), format!("{}", crate::doc::root_cause(e)).lines().next().unwrap_or("")).chars().take(110).collect() }
+
+fn oracle(c: &Case) -> Option<(String, String)> {
+    let (a, b) = build(c);
+    for cfg in CFGS {
+        let r = guard(|| -> Option<(String, String)> {
+            let mut results: Vec<Primitive> = Vec::new();
+            for (which, bytes) in [("direct", &a), ("compressed", &b)] {
+                let out = with_file!(bytes.clone(), cfg, b"", |f| {
+                    let f = match f { Ok(f) => f, Err(e) => return Some(("load-error".into(), format!("{} twin: {}", which, el(&e)))) };
+                    let res = f.resolver();
+                    let p = match res.resolve(PlainRef { id: 5, gen: 0 }) { Ok(p) => p, Err(e) => return Some(("value-error".into(), format!("{} twin: resolve(5): {}", which, el(&e)))) };
+                    if let Err(m) = matches(&p, &c.v, true) { return Some(("wrong-value".into(), format!("{} twin: {}", which, m))); }
+                    // the stream
+                    let st = match res.get::<Stream<()>>(Ref::new(PlainRef { id: 10, gen: 0 })) { Ok(s) => s, Err(e) => return Some(("stream-error".into(), format!("{} twin: get stream: {}", which, el(&e)))) };
+                    match (**st.data()).data(&res) { Ok(d) if &d[..] == &c.stream_data[..] => {}, Ok(d) => return Some(("wrong-stream-data".into(), format!("{} twin: {} bytes instead of {}", which, d.len(), c.stream_data.len()))), Err(e) => return Some(("stream-error".into(), format!("{} twin: data: {}", which, el(&e)))) }
+                    match res.resolve(PlainRef { id: 10, gen: 0 }) {
+                        Ok(Primitive::Stream(ps)) => match ps.raw_data(&res) { Ok(d) if &d[..] == &c.stream_data[..] => {}, Ok(_) => return Some(("wrong-stream-data".into(), format!("{} twin: raw_data differs", which))), Err(e) => return Some(("stream-error".into(), format!("{} twin: raw_data: {}", which, el(&e)))) },
+                        Ok(_) => return Some(("stream-error".into(), format!("{} twin: object 10 is not a stream", which))),
+                        Err(e) => return Some(("stream-error".into(), format!("{} twin: resolve(10): {}", which, el(&e)))),
+                    }
+                    p
+                });
+                results.push(out);
+            }
+            if results[0] != results[1] { return Some(("twins-differ".into(), "resolve(5) differs between direct and compressed storage".into())); }
+            None
+        });
+        match r { Ok(None) => {}, Ok(Some((k, d))) => return Some((k, format!("[{}] {}", cfg.name(), d))), Err(p) => return Some((p.signature(), p.describe())) }
+    }
+    None
+}
+
+fn witness(c: &Case) -> Value { let (_, b) = build(c); json!({"value": brief_v(&c.v), "case": format!("{:?}", c).chars().take(400).collect::<String>(), "compressed_twin": show(&b[..b.len().min(1500)])}) }
+
+pub fn run(run: &Run) {
+    run.rule("twin documents per value (every Primitive kind incl. integers, reals, names, null, booleans, references, nested containers): stored as ordinary indirect object vs member of an object stream at first/middle/last position, with/without trailing white-space, /First tight or padded, object stream unfiltered or with 1-2 filters from {ASCIIHex, ASCII85, RunLength, LZW, Flate}; plus a stream whose /Length is direct, a reference to a direct integer, or to an integer inside an object stream. resolve() must agree between twins and with the written value; Stream::data/raw_data with the written bytes. 4 configurations. distinct_nontrivial = distinct compressed-twin files");
+    run.assume("object-stream filters are encoded by the reference encoders of C05; values printed in the plain spelling");
+    let n = run.n(40_000, 600_000);
+    par_for(n, |i| {
+        run.eval();
+        check_case(run, "C11", "twin", Src::fresh(Rng::derive(run.seed, 11, i)), &gen_case, &oracle, &witness, &|c, s| {
+            let (_, b) = build(c);
+            run.nontrivial(fnv(&b));
+            for l in &s.labels { run.count(&format!("label:{}", l)); }
+            if i < 5 { run.sample(json!({"value": brief_v(&c.v), "position": c.position, "members": c.n_members, "trailing_ws": c.trailing_ws, "filters": c.filters, "length_mode": c.length_mode})); }
+        });
+    });
+}
